@@ -40,6 +40,24 @@ def xor8(d):
     return x
 
 
+# C17: a pool of constructs that share members by object identity
+POOL_DEFS = '''
+S0 = Struct("n"/Byte, "d"/Bytes(this.n))
+S1 = Struct("k"/Int16ub, "v"/Bytes(this._params.n))
+S2 = PrefixedArray(Byte, S0)
+S3 = Struct("a"/S0, "b"/S0, "c"/Array(2, S0))
+S4 = Sequence(S0, S1, VarInt)
+S5 = Union(0, "x"/Int16ub, "y"/Bytes(2))
+S6 = GreedyRange(S0)
+S7 = Switch(this._params.n, {1: S0, 2: S1})
+S8 = LazyStruct("a"/S0, "b"/Byte)
+S9 = LazyArray(2, S0)
+S10 = Struct("h"/S0, "t"/OneOf(Byte, [1, 7, 255]), "z"/Array(1, S1))
+S11 = Select(Prefixed(Byte, S0), S0)
+'''
+POOL_NAMES = ['S%d' % i for i in range(12)]
+
+
 def namespace():
     global _NS
     if _NS is None:
@@ -57,6 +75,7 @@ def namespace():
             b = 2
             c = 8
         ns.update(E=E, F=F, sum8=sum8, xor8=xor8, len=len)
+        exec(POOL_DEFS, ns)
         R.HASHES[id(sum8)] = 'HSum8'
         R.HASHES[id(xor8)] = 'HXor8'
         R.HASHES[id(len)] = 'HLen'
